@@ -227,6 +227,52 @@ def paths_coq(ps):
     return clist(['{| p_pid := %s; p_src := %s; p_tok := %s; p_mark := %s |}' % (cN(a), cN(b), cN(d), cbool(m))
                   for a, b, d, m in ps])
 
+def untruthful(labels):
+    """python mirror of Spec/ExportTxSpec.v truthful_run on the RIB labels of a case (the labels are
+    compared with the changes the real table emits on every case, so this judges the real change
+    stream against the contract the theorems assume).  Returns None or a description."""
+    rib = {}           # net -> ranked list of (pid, src, tok, mark)
+    fl = set()
+    def tset(x, live_eq):
+        net, bc, ac, repl, paths = x
+        old = rib.get(net, [])
+        if not ac and paths != old: return 'any_changed=false but the candidate list changed (prefix %d)' % net
+        if not bc and paths[:1] != old[:1]: return 'best_changed=false but the best candidate changed (prefix %d)' % net
+        if len({p[0] for p in paths}) != len(paths): return 'duplicate path id (prefix %d)' % net
+        for p in paths:
+            for q in old:
+                if p[0] == q[0] and p != q and repl != p[0]:
+                    return 'path id %d of prefix %d changed without being the replaced path' % (p[0], net)
+            if p[3] and p[1] not in fl: return 'marker ahead of the flag'
+            if live_eq and bool(p[3]) != (p[1] in fl): return 'marker differs from the flag'
+        rib[net] = paths
+        return None
+    for l in labels:
+        t = l[0]
+        why = None
+        if t == 'set':
+            why = tset(l[1:], True)
+        elif t == 'touch':
+            rib.setdefault(l[1], [])
+        elif t == 'free':
+            if not l[2] and rib.get(l[1]): why = 'destination %d freed silently while it had candidates' % l[1]
+            rib.pop(l[1], None)
+        elif t == 'llgr':
+            if l[2] and l[1] not in fl: why = 'bare flag flip'
+        elif t == 'llgrmark':
+            fl.add(l[1])
+            for x in l[2]:
+                why = why or tset(x, False)
+            for net, ps in rib.items():
+                for p in ps:
+                    if bool(p[3]) != (p[1] in fl):
+                        why = why or ('LLGR-stale marking of source %d not reported for path id %d of prefix %d'
+                                      % (l[1], p[0], net))
+        if why:
+            return why
+    return None
+
+
 def label_coq(l):
     t = l[0]
     if t == 'set':
@@ -440,6 +486,9 @@ class Prop:
 
     # ---- Spec oracle on the implementation's observations
     def oracle(self, c, obs):
+        why = untruthful([l for ls in translate(c) for l in ls])
+        if why:
+            return 'change stream (as predicted by the reference RIB and matched by the table): ' + why
         for lvl, o in zip(('export-level', 'session-level'), obs):
             why = self.oracle1(c, o, lvl == 'session-level')
             if why:
